@@ -123,8 +123,20 @@ def gen_data(rng, method, n=None, m=None, extra=None, declared=None, positive=Fa
             mp['weights']['zz_undeclared'] = PU * rng.choice([1, 4, 20])
         elif method == 'electreIII':
             mp['electreCriteria']['zz_undeclared'] = {'k': PU * rng.choice([1, 4, 20])}
-    return {'preferenceFunction': method, 'knownAlternatives': known, 'choseToMake': chose, 'criteria': crits,
-            'methodParameters': mp, 'biases': [], 'biasApplyRandomSeed': rng.randint(0, 10 ** 6)}
+    # seeds are ordinary parameters: 0 is a seed like any other and a seed that is left out is 0
+    if 'randomSeed' in mp and rng.random() < 0.2:
+        if rng.random() < 0.5:
+            mp['randomSeed'] = 0
+        else:
+            del mp['randomSeed']
+    req = {'preferenceFunction': method, 'knownAlternatives': known, 'choseToMake': chose, 'criteria': crits,
+           'methodParameters': mp, 'biases': [], 'biasApplyRandomSeed': rng.randint(0, 10 ** 6)}
+    r = rng.random()
+    if r < 0.1:
+        req['biasApplyRandomSeed'] = 0
+    elif r < 0.2:
+        del req['biasApplyRandomSeed']
+    return req
 
 
 def bounding(rng, p):
@@ -132,7 +144,7 @@ def bounding(rng, p):
     if r < 0.4:
         return
     if r < 0.7:
-        p['allowedValuesRangeScaling'] = rng.choice([PU // 2, PU, 2 * PU])
+        p['allowedValuesRangeScaling'] = rng.choice([-PU, PU // 2, PU, 2 * PU])      # negative = not bounded, like leaving it out
     if rng.random() < 0.4:
         p['disallowNegativeValues'] = True
 
@@ -246,5 +258,11 @@ def pipeline_case(rng, method=None, seq=None, **kw):
             m_now -= min(b['props']['max'], max(mn, m_now))  # conservative
             m_now = max(m_now, 1)
         m_now += delta_m(b)
+        pr = b['props']
+        if 'randomSeed' in pr and rng.random() < 0.2:     # explicit 0 / left out
+            if rng.random() < 0.5:
+                pr['randomSeed'] = 0
+            else:
+                del pr['randomSeed']
         req['biases'].append(b)
     return req
